@@ -22,6 +22,27 @@ class KaniResult:
         self.solver_s = 0.0
 
 def run(crate_dir, filters=None, jobs=8, harness_timeout=600, extra_flags=(), timeout=3600):
+    """Runs the named harnesses; long lists are split so that the command line stays below the OS limit."""
+    filters = list(filters or [])
+    if len(filters) <= 250:
+        return _run(crate_dir, filters, jobs, harness_timeout, extra_flags, timeout)
+    total = KaniResult()
+    total.rc = 0
+    for i in range(0, len(filters), 250):
+        r = _run(crate_dir, filters[i:i + 250], jobs, harness_timeout, extra_flags, timeout)
+        total.harnesses.update(r.harnesses)
+        total.wall += r.wall
+        total.solver_s += r.solver_s
+        total.version = r.version or total.version
+        total.stdout += r.stdout[-2000:]
+        if r.rc not in (0, None):
+            total.rc = r.rc
+        if r.compile_error:
+            total.compile_error = r.compile_error
+            break
+    return total
+
+def _run(crate_dir, filters=None, jobs=8, harness_timeout=600, extra_flags=(), timeout=3600):
     out_json = os.path.join(crate_dir, 'kani_out.json')
     if os.path.exists(out_json):
         os.remove(out_json)
